@@ -42,6 +42,11 @@ class Facts:
             return b
         return self.ibody(b)
 
+    def views(self):
+        """every body in its analysis view (new helpers / closures / loop adaptors expanded)"""
+        for b in list(self.bodies.values()):
+            yield self.ibody(b) if self.inline_new else b
+
     def raw_body(self, name):
         if name in self.bodies:
             return self.bodies[name]
@@ -58,7 +63,7 @@ class Facts:
             k = self.__dict__["_known"] = (frozenset(d["names"]), frozenset(d["ids"]))
         return k
 
-    def ibody(self, name, keep=None, depth=4, adaptors=True):
+    def ibody(self, name, keep=None, depth=4, adaptors=True, combinators=False):
         """The body with *new* crate-local helpers, visible closures and loop adaptors expanded
         (inline.py).  `keep`: extra names (full, or last path segments) of callees to leave as calls;
         every function listed in known_fns.json is kept."""
@@ -67,13 +72,13 @@ class Facts:
         if b is None:
             return None
         keep = tuple(sorted(keep or ()))
-        key = (b.id, keep, depth, adaptors)
+        key = (b.id, keep, depth, adaptors, combinators)
         c = self.__dict__.setdefault("_ibodies", {})
         if key not in c:
             names, ids = self.known()
             def kp(n, keep=keep, names=names):
                 return n in names or any(n == k or n.endswith("::" + k) for k in keep)
-            c[key] = inline.inline_body(self, b, kp, depth, adaptors, known_ids=ids)
+            c[key] = inline.inline_body(self, b, kp, depth, adaptors, known_ids=ids, combinators=combinators)
         return c[key]
 
     def find(self, suffix):
@@ -476,6 +481,11 @@ class Body:
                 # projecting a field out of a known aggregate
                 if t[0] == "agg" and e["f"] < len(t[4]) and t[1] in ("tuple", "adt", "closure"):
                     t = t[4][e["f"]]
+                elif t[0] == "downcast" and t[1][0] == "agg" and t[1][1] == "adt" and t[1][3] == t[2] and e["f"] < len(t[1][4]):
+                    t = t[1][4][e["f"]]
+                elif (t[0] == "downcast" and t[2] == "Continue" and e["f"] == 0 and t[1][0] == "call" and t[1][1].endswith("ops::Try>::branch")
+                      and len(t[1][2]) == 1 and t[1][2][0][0] == "agg" and t[1][2][0][1] == "adt" and t[1][2][0][3] in ("Ok", "Some") and t[1][2][0][4]):
+                    t = t[1][2][0][4][0]     # `Ok(x)?` is x
                 else:
                     t = ("field", t, nm if nm is not None else e["f"], e["f"], e.get("adt"))
             elif isinstance(e, dict) and "idx" in e:
